@@ -39,6 +39,7 @@ type FSSpec struct {
 	TargetMissing bool      `json:"targetMissing,omitempty"`
 	TargetIsFile  bool      `json:"targetIsFile,omitempty"`
 	ParentIsFile  bool      `json:"parentIsFile,omitempty"` // the target's parent is a regular file
+	TargetMode    uint32    `json:"targetMode,omitempty"`   // permission and sticky/setgid bits of the (existing) target directory, octal as in chmod; 0 = 0755
 	// InodeLimit > 0: the target directory is a tmpfs of its own that can hold InodeLimit-1 entries (the pre-state counts):
 	// the creation that would exceed it fails with ENOSPC. A fault injector for the filesystem, enumerable per creation.
 	InodeLimit int `json:"inodeLimit,omitempty"`
@@ -47,13 +48,13 @@ type FSSpec struct {
 type Faults struct {
 	ReaderFailAt   int  `json:"readerFailAt"` // bytes delivered before the reader fails; -1 = never
 	ReaderMode     int  `json:"readerMode,omitempty"`
-	WriterFailAt   int  `json:"writerFailAt"` // index of the first failing Write; -1 = never
-	WriterShort    int  `json:"writerShort,omitempty"`
-	WriterOnce     bool `json:"writerOnce,omitempty"` // only that one write fails (default: sticky)
+	WriterFailAt   int  `json:"writerFailAt"`          // index of the first failing Write; -1 = never
+	WriterShort    int  `json:"writerShort,omitempty"` // bytes accepted by the failing Write (0 none, n>0 a short write, -1 all of them: (len(p), err))
+	WriterOnce     bool `json:"writerOnce,omitempty"`  // only that one write fails (default: sticky)
 	CallbackFailAt int  `json:"callbackFailAt"`
 	BreakAt        int  `json:"breakAt"`
 	CbErrKind      int  `json:"cbErrKind,omitempty"` // which value the failing callback returns (see CallbackErr)
-	IOKind         int  `json:"ioKind,omitempty"`    // 1: the reader also implements io.WriterTo and the writer io.StringWriter (code may take other paths for them); 2: the reader is also an io.Closer; 3: a *bytes.Reader; 4: an open regular file
+	IOKind         int  `json:"ioKind,omitempty"`    // 1: the reader also implements io.WriterTo and the writer io.StringWriter (code may take other paths for them); 2: the reader is also an io.Closer; 3: a *bytes.Reader; 4: an open regular file; 5: a *bufio.Reader around the fault-injecting reader; 6: an empty regular file opened write-only (Read fails with EBADF)
 	ErrKind        int  `json:"errKind,omitempty"`   // which well-known error the injected reader/writer error additionally wraps (see FaultErr)
 }
 
